@@ -1199,6 +1199,9 @@ class Executor:
         raise Unsupported(f'subscript of {type(v).__name__}')
 
     def slice_seq(self, v, k, st):
+        if k.step is not None and concrete(k.step) == -1 and k.start is None and k.stop is None:
+            n = num_term(v.length)          # seq[::-1]
+            return SSeq(v.length, lambda i, f=v.fn: f(n - 1 - num_term(i)), v.kind)
         if k.step is not None and concrete(k.step) != 1:
             raise Unsupported('strided slice')
         n = v.length
